@@ -63,15 +63,15 @@ theorem lastN_neg (vs : List Val) (n : Int) (h : n < 0) : lastN vs n = .panic .s
     the results form a new list whose element type is the accessor's result type: whenever the
     accessor has a result type on the element type (`returnType`) and succeeds on every element
     with a non-nil result `g x`, the result on the list is the list of the `g x`. -/
-theorem accessor_maps (docs : List Forest) (q : Str) (nm : String) (elem rt : Ty) (isNil : Bool)
+theorem accessor_maps (now : Nat) (docs : List Forest) (q : Str) (nm : String) (elem rt : Ty) (isNil : Bool)
     (vs : List Val) (g : Val → Val)
     (hrt : returnType elem (q.drop 1) = .ok rt)
-    (hel : ∀ x ∈ vs, accessSingle docs (q.drop 1) x = .ok (g x) ∧ g x ≠ .nil) :
-    evalAccessor docs q (.slice nm elem isNil vs) = .ok (.slice "" rt false (vs.map g)) := by
+    (hel : ∀ x ∈ vs, accessSingle now docs (q.drop 1) x = .ok (g x) ∧ g x ≠ .nil) :
+    evalAccessor now docs q (.slice nm elem isNil vs) = .ok (.slice "" rt false (vs.map g)) := by
   unfold evalAccessor
   simp only [hrt, Outcome.ok_bind]
-  have : ∀ (l : List Val), (∀ x ∈ l, accessSingle docs (q.drop 1) x = .ok (g x) ∧ g x ≠ .nil) →
-      mapO (accessElem docs (q.drop 1)) l = .ok (l.map g) := by
+  have : ∀ (l : List Val), (∀ x ∈ l, accessSingle now docs (q.drop 1) x = .ok (g x) ∧ g x ≠ .nil) →
+      mapO (accessElem now docs (q.drop 1)) l = .ok (l.map g) := by
     intro l
     induction l with
     | nil => intro _; rfl
@@ -79,7 +79,7 @@ theorem accessor_maps (docs : List Forest) (q : Str) (nm : String) (elem rt : Ty
       intro h
       have ha := h a (by simp)
       have hl := ih (fun x hx => h x (by simp [hx]))
-      have hg : accessElem docs (q.drop 1) a = Outcome.ok (g a) := by
+      have hg : accessElem now docs (q.drop 1) a = Outcome.ok (g a) := by
         unfold accessElem
         rw [ha.1]
         cases hga : g a <;> simp_all
@@ -90,10 +90,10 @@ theorem accessor_maps (docs : List Forest) (q : Str) (nm : String) (elem rt : Ty
 
 /-- an element on which the accessor fails makes the whole list fail with that error: no
     partial results -/
-theorem accessor_error_propagates (docs : List Forest) (q : Str) (nm : String) (elem rt : Ty) (isNil : Bool)
+theorem accessor_error_propagates (now : Nat) (docs : List Forest) (q : Str) (nm : String) (elem rt : Ty) (isNil : Bool)
     (x : Val) (vs : List Val) (k : ErrKind)
-    (hrt : returnType elem (q.drop 1) = .ok rt) (hx : accessSingle docs (q.drop 1) x = .error k) :
-    evalAccessor docs q (.slice nm elem isNil (x :: vs)) = .error k := by
+    (hrt : returnType elem (q.drop 1) = .ok rt) (hx : accessSingle now docs (q.drop 1) x = .error k) :
+    evalAccessor now docs q (.slice nm elem isNil (x :: vs)) = .error k := by
   unfold evalAccessor
   simp only [hrt, Outcome.ok_bind, mapO, accessElem, hx, Outcome.error_bind]
 
@@ -103,7 +103,7 @@ theorem accessor_error_propagates (docs : List Forest) (q : Str) (nm : String) (
     it when `n` exceeds the length), of the same list type. -/
 theorem first_is_take (env : Env) (lk : Lookup) (f : Str) (a : Stmt) (nm : String) (e : Ty) (vs : List Val)
     (r : Val) (s : Str) (n : Nat) (hf : fnOf f = .first)
-    (ha : evalStmt env lk a (.slice nm e false vs) = .ok r) (hs : fmtV r = some s) (hn : atoi s = some (n : Int)) :
+    (ha : evalStmt env lk a (.slice nm e false vs) = .ok r) (hs : fmtV r = some s) (hn : Q.atoi s = some (n : Int)) :
     evalExpr env lk (.call f [a]) (.slice nm e false vs) = .ok (.slice nm e false (vs.take n)) := by
   rw [evalExpr, hf]
   simp [firstLast, wrapSlice, ha, hs, hn, firstN_nat]
@@ -111,7 +111,7 @@ theorem first_is_take (env : Env) (lk : Lookup) (f : Str) (a : Stmt) (nm : Strin
 /-- `last_is_suffix`.  `Last(n)` of a non-nil list is its suffix of length `min n len`. -/
 theorem last_is_suffix (env : Env) (lk : Lookup) (f : Str) (a : Stmt) (nm : String) (e : Ty) (vs : List Val)
     (r : Val) (s : Str) (n : Nat) (hf : fnOf f = .last)
-    (ha : evalStmt env lk a (.slice nm e false vs) = .ok r) (hs : fmtV r = some s) (hn : atoi s = some (n : Int)) :
+    (ha : evalStmt env lk a (.slice nm e false vs) = .ok r) (hs : fmtV r = some s) (hn : Q.atoi s = some (n : Int)) :
     evalExpr env lk (.call f [a]) (.slice nm e false vs) = .ok (.slice nm e false (vs.drop (vs.length - n))) := by
   rw [evalExpr, hf]
   simp [firstLast, wrapSlice, ha, hs, hn, lastN_nat]
@@ -125,7 +125,7 @@ theorem suffix_length_min (vs : List Val) (n : Nat) : (vs.drop (vs.length - n)).
     as an error once it recovers) -/
 theorem first_negative_panics (env : Env) (lk : Lookup) (f : Str) (a : Stmt) (nm : String) (e : Ty) (vs : List Val)
     (r : Val) (s : Str) (n : Int) (hf : fnOf f = .first ∨ fnOf f = .last) (hneg : n < 0)
-    (ha : evalStmt env lk a (.slice nm e false vs) = .ok r) (hs : fmtV r = some s) (hn : atoi s = some n) :
+    (ha : evalStmt env lk a (.slice nm e false vs) = .ok r) (hs : fmtV r = some s) (hn : Q.atoi s = some n) :
     evalExpr env lk (.call f [a]) (.slice nm e false vs) = .panic .sliceBounds := by
   rcases hf with hf | hf <;> rw [evalExpr, hf] <;>
     simp [firstLast, wrapSlice, ha, hs, hn, firstN_neg _ _ hneg, lastN_neg _ _ hneg]
@@ -313,10 +313,10 @@ theorem never_unordered (l r : Str) : compareOperands Generated.Query.nanIsNumer
   rw [hflag]
   unfold compareOperands
   cases hl : parseNum l with
-  | none => simp [isNumericNum]
+  | none => simp [isNumericNum]; split <;> simp
   | some a =>
     cases hr : parseNum r with
-    | none => simp [isNumericNum]
+    | none => simp [isNumericNum]; split <;> simp
     | some b =>
       cases a <;> cases b <;> simp [isNumericNum] <;> split <;> simp_all
 
@@ -340,21 +340,23 @@ theorem nan_repaired : applyOpStr false "=" (ascii "Nan") (ascii "nan ") = some 
 
 /-- `numeric_else_text`.  Two operands are compared as numbers exactly when both are accepted
     by (the model of) `strconv.ParseFloat` — a NaN spelling only if the code counts it as a
-    number — and otherwise as lower-cased, trimmed text in byte order. -/
+    number — and otherwise as lower-cased, trimmed text in byte order (for ASCII operands; the
+    model does not determine `strings.ToLower` beyond ASCII and answers `undetermined` there). -/
 theorem numeric_else_text (nan : Bool) (l r : Str) :
     (isNumericNum nan (parseNum l) = true ∧ isNumericNum nan (parseNum r) = true →
         ∀ o, compareOperands nan l r ≠ .text o) ∧
     (¬ (isNumericNum nan (parseNum l) = true ∧ isNumericNum nan (parseNum r) = true) →
-        compareOperands nan l r = .text (cmpStr (trimSpace (toLowerAscii l)) (trimSpace (toLowerAscii r)))) := by
+      isAsciiStr l = true → isAsciiStr r = true →
+        compareOperands nan l r = .text (cmpStr (Gedcom.trimSpace (toLowerAscii l)) (Gedcom.trimSpace (toLowerAscii r)))) := by
   unfold compareOperands
   constructor
   · intro ⟨h1, h2⟩ o
     simp only [h1, h2, Bool.and_self, if_true]
     split <;> simp
-  · intro h
+  · intro h ha hb
     have : (isNumericNum nan (parseNum l) && isNumericNum nan (parseNum r)) = false := by
       cases h1 : isNumericNum nan (parseNum l) <;> cases h2 : isNumericNum nan (parseNum r) <;> simp_all
-    simp [this]
+    simp [this, ha, hb]
 
 /-- the text order is a total three-way comparison: equal exactly on equal strings and
     antisymmetric -/
@@ -377,12 +379,59 @@ theorem cmpStr_eq_iff (a b : Str) : cmpStr a b = .eq ↔ a = b := by
           subst this
           simp [h1, ih]
 
+/-! ### the relation / event accessors (shared models of Resolve.lean, DateParse.lean) -/
+
+/-- a person with a death event is not living, whatever the year -/
+theorem living_no_death (now : Nat) (n : Node) (h : (kidsWithTag n "DEAT").isEmpty = false) :
+    individualIsLiving now n = false := by
+  simp [individualIsLiving, h]
+
+/-- without a death event and without any birth / baptism date a person counts as living -/
+theorem living_unknown_birth (now : Nat) (n : Node) (hd : (kidsWithTag n "DEAT").isEmpty = true)
+    (hb : estimatedBirthDate n = none) : individualIsLiving now n = true := by
+  simp [individualIsLiving, hd, birthYears, hb, livingTest]
+
+theorem livingTest_antitone (now later maxAge : Nat) (by_ : Int × Nat) (hle : now ≤ later)
+    (h : livingTest later maxAge by_ = true) : livingTest now maxAge by_ = true := by
+  unfold livingTest at h ⊢
+  simp only [Bool.or_eq_true, decide_eq_true_eq] at h ⊢
+  rcases h with h | h
+  · exact Or.inl h
+  · refine Or.inr ?_
+    have h1 : (now : Int) ≤ (later : Int) := by exact_mod_cast hle
+    have h2 : (0 : Int) ≤ (by_.2 : Int) := Int.natCast_nonneg _
+    have := Int.mul_le_mul_of_nonneg_right h1 h2
+    omega
+
+/-- the living test is antitone in the current year: who is not living now is not living in
+    any later year -/
+theorem living_antitone (now later : Nat) (n : Node) (hle : now ≤ later)
+    (h : individualIsLiving later n = true) : individualIsLiving now n = true := by
+  unfold individualIsLiving at h ⊢
+  split
+  · rename_i hd; simp [hd] at h
+  · rename_i hd
+    simp only [hd] at h
+    split
+    · rfl
+    · rename_i hm
+      simp only [hm] at h
+      exact livingTest_antitone now later _ _ hle h
+
+/-- `Spouses`, `Families`, `Parents` and the `Individual` of a HUSB/WIFE/CHIL node are the
+    reference-resolution functions of the C14 model; a panic there is the recovered error -/
+theorem spouses_is_resolve (now : Nat) (docs : List Forest) (d : Nat) (n : Node) :
+    callMenu now docs "IndividualNode" "Spouses" (.node d n) =
+      some (ofRes (Resolve.spouses resFlags (docs.getD d []) ⟨0, n⟩)
+        (fun l => .slice "IndividualNodes" (.ptr "IndividualNode") false (l.map (entVal d "IndividualNode")))) := by
+  rfl
+
 /-! ### determinism -/
 
 /-- `deterministic`.  The evaluator is a function of the query, the fuel and the documents: the
     same query on the same documents has one result. -/
-theorem deterministic (fuel : Nat) (docs : List Forest) (eng : Engine) (o₁ o₂ : Outcome Val)
-    (h₁ : evalTop fuel docs eng = o₁) (h₂ : evalTop fuel docs eng = o₂) : o₁ = o₂ := h₁ ▸ h₂
+theorem deterministic (now fuel : Nat) (docs : List Forest) (eng : Engine) (o₁ o₂ : Outcome Val)
+    (h₁ : evalTop now fuel docs eng = o₁) (h₂ : evalTop now fuel docs eng = o₂) : o₁ = o₂ := h₁ ▸ h₂
 
 /-! ### non-vacuity: the hypotheses above are met by concrete queries on a concrete document -/
 
@@ -406,18 +455,18 @@ def isInt (o : Outcome Val) (n : Int) : Bool := match o with | .ok (.int m) => m
 
 /-- `.Individuals | .Name | .GivenName` maps over the three individuals (the third has no name:
     a typed nil pointer, whose GivenName is "") -/
-example : sameStrs (evalTop 3 [exDoc] [st [acc ".Individuals", acc ".Name", acc ".GivenName"]]) ["Nan", "John", ""] = true := by decide
+example : sameStrs (evalTop 2026 3 [exDoc] [st [acc ".Individuals", acc ".Name", acc ".GivenName"]]) ["Nan", "John", ""] = true := by decide
 /-- First / Last at and beyond the boundary n = len + 1 -/
-example : isInt (evalTop 3 [exDoc] [st [acc ".Individuals", fn "First" [st [k "4"]], fn "Length" []]]) 3 = true := by decide
-example : isInt (evalTop 3 [exDoc] [st [acc ".Individuals", fn "Last" [st [k "4"]], fn "Length" []]]) 3 = true := by decide
-example : sameStrs (evalTop 3 [exDoc] [st [acc ".Individuals", fn "Last" [st [k "2"]], acc ".Pointer"]]) ["I2", "I3"] = true := by decide
+example : isInt (evalTop 2026 3 [exDoc] [st [acc ".Individuals", fn "First" [st [k "4"]], fn "Length" []]]) 3 = true := by decide
+example : isInt (evalTop 2026 3 [exDoc] [st [acc ".Individuals", fn "Last" [st [k "4"]], fn "Length" []]]) 3 = true := by decide
+example : sameStrs (evalTop 2026 3 [exDoc] [st [acc ".Individuals", fn "Last" [st [k "2"]], acc ".Pointer"]]) ["I2", "I3"] = true := by decide
 /-- Only with a pipeline condition; the person called Nan is found (defect 17 repaired) -/
-example : sameStrs (evalTop 3 [exDoc] [st [acc ".Individuals",
+example : sameStrs (evalTop 2026 3 [exDoc] [st [acc ".Individuals",
     fn "Only" [st [acc ".Name", .bin (acc ".GivenName") "=" (k "nan")]], acc ".Pointer"]]) ["I1"] = true := by decide
 /-- Combine(E, E) | Length = 2 · (E | Length) -/
-example : isInt (evalTop 3 [exDoc] [st [fn "Combine" [st [acc ".Individuals"], st [acc ".Individuals"]], fn "Length" []]]) 6 = true := by decide
+example : isInt (evalTop 2026 3 [exDoc] [st [fn "Combine" [st [acc ".Individuals"], st [acc ".Individuals"]], fn "Length" []]]) 6 = true := by decide
 /-- a variable and its definition; shadowing: the first definition wins -/
-example : isInt (evalTop 4 [exDoc] [.mk (ascii "X") [acc ".Individuals"], .mk (ascii "X") [acc ".Families"],
+example : isInt (evalTop 2026 4 [exDoc] [.mk (ascii "X") [acc ".Individuals"], .mk (ascii "X") [acc ".Families"],
     st [.var (ascii "X"), fn "Length" []]]) 3 = true := by decide
 /-- numeric versus text comparison: "10" > "9" as numbers, "abc" < "ABD" ignoring case -/
 example : applyOpStr false ">" (ascii "10") (ascii "9") = some true ∧ applyOpStr false ">" (ascii "10") (ascii "9x") = some false ∧
